@@ -78,6 +78,8 @@ type State struct {
 	used   *[]HeapKey // stParam: heaps read so far, in order of first use
 	immutFrom *State  // stBase made by a havoc: the state before it (immutable fields keep their values, immutable.go)
 	inl       bool    // created while evaluating a specification under binders: its terms may mention bound variables
+	keepFrom  *State  // stBase made by a call into an opaque package: field heaps of types that package cannot name
+	keepPkg   *types.Package // ... (it does not import their declaring package) keep the value they have in keepFrom
 }
 
 func (c *FuncCtx) newBase() *State {
@@ -104,6 +106,12 @@ func (s *State) get(k HeapKey) string {
 		t = k.Name + "!hp"
 		*s.used = append(*s.used, k)
 	case stBase:
+		if s.keepFrom != nil && k.Pkg != "" && !pkgCanName(s.keepPkg, k.Pkg) {
+			// the called package cannot select fields of this struct type (it does not import the declaring package):
+			// its code cannot store to them (reflection / unsafe aside, listed as an assumption)
+			t = s.keepFrom.get(k)
+			break
+		}
 		t = s.c.declare(fmt.Sprintf("%s@%d", k.Name, s.epoch), k.Sort)
 		s.c.byteHeapAxiom(k, t, false)
 		if s.immutFrom != nil && s.c.immutableKey(k.Name) {
@@ -385,4 +393,29 @@ func (c *FuncCtx) ptrTerm(v Val) string {
 		}
 	}
 	return t
+}
+
+// pkgCanName: package p is, or (transitively) imports, the package with the given path.
+func pkgCanName(p *types.Package, path string) bool {
+	if p == nil {
+		return true
+	}
+	seen := map[*types.Package]bool{}
+	var walk func(q *types.Package) bool
+	walk = func(q *types.Package) bool {
+		if q.Path() == path {
+			return true
+		}
+		if seen[q] {
+			return false
+		}
+		seen[q] = true
+		for _, im := range q.Imports() {
+			if walk(im) {
+				return true
+			}
+		}
+		return false
+	}
+	return walk(p)
 }
